@@ -17,39 +17,38 @@ func RegisterFilter(filter Filter) {
 	Filters = append(Filters, filter)
 }
 
+// Check whether the suite should be registered.
+//
+// A filter that matches a suite in full (eg. a path filter
+// pointing at the first line of the suite) is satisfied by every
+// case and subsuite inside of it, so it is remembered on the suite
+// and not consulted again. All the other filters still apply,
+// regardless of the order in which the filters have been registered.
 func SuiteMatchesFilters(suite *Suite) SuiteMatch {
-	if suite.FullMatch {
-		return SUITE_MATCH_FULL
-	}
-
-	var result SuiteMatch
+	result := SUITE_MATCH_TRUE
 
 	for _, filter := range Filters {
-		suiteMatch := filter.SuiteMatches(suite)
-		switch suiteMatch {
+		if suite.FullyMatchedBy(filter) {
+			continue
+		}
+
+		switch filter.SuiteMatches(suite) {
 		case SUITE_MATCH_FALSE:
-			return suiteMatch
+			return SUITE_MATCH_FALSE
 		case SUITE_MATCH_FULL:
-			if result == SUITE_MATCH_FALSE {
-				result = SUITE_MATCH_FULL
-			}
-		case SUITE_MATCH_TRUE:
-			result = SUITE_MATCH_TRUE
+			suite.FullMatch = append(suite.FullMatch, filter)
+			result = SUITE_MATCH_FULL
 		}
 	}
 
-	if result == SUITE_MATCH_FALSE {
-		return SUITE_MATCH_TRUE
-	}
 	return result
 }
 
 func CaseMatchesFilters(testCase *Case) bool {
-	if testCase.FullMatch() {
-		return true
-	}
-
 	for _, filter := range Filters {
+		if testCase.Parent.FullyMatchedBy(filter) {
+			continue
+		}
 		if !filter.CaseMatches(testCase) {
 			return false
 		}
